@@ -5,6 +5,7 @@ import (
 	"fmt"
 	"io"
 	"reflect"
+	"strconv"
 	"time"
 
 	"github.com/rs/zerolog"
@@ -21,6 +22,7 @@ type Settings struct {
 	FloatPrec        *int    `json:"floatPrec,omitempty"`
 	ErrMarshal       string  `json:"errMarshal,omitempty"`   // "" default | "string" | "nil" | "obj"
 	StackMarshal     string  `json:"stackMarshal,omitempty"` // "" none | "nil" | "string" | "error" | "nilerr" | "obj" | "other"
+	LevelMarshal     string  `json:"levelMarshal,omitempty"` // "" default | "tag": "L<n>" for every level, NoLevel too | "dropinfo": "" for Info
 }
 
 // Hook describes a recording hook. Every hook logs (id, level, message) when run.
@@ -186,7 +188,20 @@ func ApplySettings(s Settings) func() {
 	case "other":
 		zerolog.ErrorStackMarshaler = func(err error) interface{} { return []int{1, 2} }
 	}
+	oldLM := zerolog.LevelFieldMarshalFunc
+	switch s.LevelMarshal {
+	case "tag": // a marshal function that has a text for NoLevel too: whether the field appears is decided by the event, not by this text
+		zerolog.LevelFieldMarshalFunc = func(l zerolog.Level) string { return "L" + strconv.Itoa(int(l)) }
+	case "dropinfo": // ... and one that yields the empty string for a real level: the field is still written
+		zerolog.LevelFieldMarshalFunc = func(l zerolog.Level) string {
+			if l == zerolog.InfoLevel {
+				return ""
+			}
+			return l.String()
+		}
+	}
 	return func() {
+		zerolog.LevelFieldMarshalFunc = oldLM
 		zerolog.LevelFieldName, zerolog.MessageFieldName, zerolog.ErrorFieldName, zerolog.TimeFieldFormat = o.lf, o.mf, o.ef, o.tf
 		zerolog.DurationFieldUnit, zerolog.DurationFieldInteger, zerolog.FloatingPointPrecision = o.du, o.di, o.fp
 		zerolog.ErrorMarshalFunc, zerolog.ErrorStackMarshaler, zerolog.TimestampFunc = o.em, o.sm, o.ts
